@@ -68,6 +68,8 @@ def make_uod(cmd_log: list | None = None, outputs_safe=(("Out1", 0.0), ), output
                 elif part.startswith("o="):       # o=Out1:3  set output on every execution
                     tname, v = part[2:].split(":")
                     cmd.context.tags[tname].set_value(float(v) + n, now_fn() if now_fn else cmd.context.tags[tname].tick_time)
+                    if id_in_log:
+                        log.append(("out", tname, float(v) + n))
             if fail_at is not None and n >= fail_at:
                 raise ValueError(f"scripted failure of {name}")
             if n >= dur:
